@@ -101,7 +101,7 @@ def main():
         res["checks"] = {}
         for pid in props:
             t0 = time.time()
-            env = dict(os.environ, VERIF_REPO=wt, VERIF_EVIDENCE_DIR="/tmp/coord/ev_%s" % sid)
+            env = dict(os.environ, VERIF_REPO=wt, VERIF_EVIDENCE_DIR="/tmp/coord/ev_%s" % sid, VERIF_RUN_TAG=sid)
             rc, o = sh(["./check", pid], cwd=V, env=env, timeout=3600)
             lines = [l for l in o.splitlines() if l.startswith("VIOLATION") or l.startswith("KNOWN-FINDING")]
             res["checks"][pid] = dict(exit=rc, wall_s=round(time.time() - t0, 1), lines=[l[:300] for l in lines], tail=o[-800:])
